@@ -82,6 +82,7 @@ fn ring_shape<F: AnyF>(r: [Coord<F>; 3], collapsed: usize) -> bool {
 ///   3: subject = two 2-gons, clipping empty                       -> ids count up per polygon
 ///   4: subject = triangle whose first edge is collapsed (repeated vertex) -> no events for it
 ///   5: subject empty, clipping = one 2-gon with a 2-gon hole       -> flags / ids of clipping rings, hole flag
+///   6: subject = one polygon whose exterior ring and whose one interior ring have NO coordinates -> returns, no events (C03)
 /// (a "2-gon" is the ring a, b, a: two edges, the smallest ring Polygon::new leaves alone).
 pub fn fill_queue_contract_body<F: AnyF, S: Src>(s: &mut S, shape: u8) {
     let op = any_op(s);
@@ -93,6 +94,7 @@ pub fn fill_queue_contract_body<F: AnyF, S: Src>(s: &mut S, shape: u8) {
         2 => (vec![Polygon::new(gon(v[0], v[1]), vec![])], vec![Polygon::new(gon(v[2], v[3]), vec![])]),
         3 => (vec![Polygon::new(gon(v[0], v[1]), vec![]), Polygon::new(gon(v[2], v[3]), vec![])], vec![]),
         5 => (vec![], vec![Polygon::new(gon(v[0], v[1]), vec![gon(v[2], v[3])])]),
+        6 => (vec![Polygon::new(LineString(vec![]), vec![LineString(vec![])])], vec![]),
         _ => (vec![Polygon::new(ring([v[0], v[0], v[2]]), vec![])], vec![]),
     };
     // requires (shape of the instance): the edges that are meant to exist are non-degenerate
@@ -116,6 +118,7 @@ pub fn fill_queue_contract_body<F: AnyF, S: Src>(s: &mut S, shape: u8) {
         0 => (3, [(v[0], v[1], true, 1, true), (v[1], v[2], true, 1, true), (v[2], v[0], true, 1, true), none]),
         1 => (4, [(v[0], v[1], true, 1, true), (v[1], v[0], true, 1, true), (v[2], v[3], true, 1, false), (v[3], v[2], true, 1, false)]),
         2 => (4, [(v[0], v[1], true, 1, true), (v[1], v[0], true, 1, true), (v[2], v[3], false, cid, cext), (v[3], v[2], false, cid, cext)]),
+        6 => (0, [none, none, none, none]),
         3 => (4, [(v[0], v[1], true, 1, true), (v[1], v[0], true, 1, true), (v[2], v[3], true, 2, true), (v[3], v[2], true, 2, true)]),
         5 => {
             // no subject polygon: the first clipping polygon gets id 1 and an exterior flag unless the operation is a
@@ -282,6 +285,7 @@ mod proofs {
     // shape 3 (two subject polygons) exhausts CBMC's memory; the id counting it would show is covered by shape 2
     fq_harness!(fill_queue_collapsed_f64, f64, 4);
     fq_harness!(fill_queue_clip_hole_f64, f64, 5);
+    fq_harness!(fill_queue_empty_rings_f64, f64, 6);
     fq_harness!(fill_queue_triangle_f32, f32, 0);
     fq_harness!(fill_queue_clipping_f32, f32, 2);
 
